@@ -475,6 +475,36 @@ class Runner:
                 self.do_simple(["close", "F"])
                 self.do_drop(["drop"])
 
+    def do_list_sessions(self, cmd):
+        """Writable sessions through an explicit file list in varying orders (a patch first whenever
+        there is one), each followed by reopening by name and by list."""
+        _, cls_name, n, mode, k = cmd
+        for _ in range(k):
+            if self.rec is not None:
+                return
+            fs = self.files_of(n)
+            if not fs:
+                return
+            p = list(fs)
+            self.rng.shuffle(p)
+            if len(p) > 1 and p[0] == f"{n}.ih5" and self.rng.random() < 0.8:
+                j = self.rng.randrange(1, len(p))
+                p[0], p[j] = p[j], p[0]
+            self.do_open(["open", cls_name, mode, ["list", p], self.fresh(), self.fresh()])
+            if self.rec is None:
+                continue
+            self.do_write(["write", f"tk{self.fresh()}", None])
+            if self.rng.random() < 0.3:
+                self.do_simple(["commit"])
+                self.do_simple(["cp", self.fresh()])
+                self.do_write(["write", f"tk{self.fresh()}", None])
+            self.do_simple(["close", "T" if self.rng.random() < 0.8 else "F"])
+            self.do_drop(["drop"])
+            self.session_r(cls_name, ["name", n])
+            q = self.files_of(n)
+            self.rng.shuffle(q)
+            self.session_r(cls_name, ["list", q])
+
     def run(self, cmds):
         for cmd in cmds:
             k = cmd[0]
@@ -492,6 +522,8 @@ class Runner:
                 self.do_reopen_perms(cmd)
             elif k == "reopen-sublists":
                 self.do_reopen_sublists(cmd)
+            elif k == "list-sessions":
+                self.do_list_sessions(cmd)
             else:
                 raise ValueError(k)
         if self.rec is not None:
